@@ -4,6 +4,10 @@ PROP = {'engine': 'stack',
  'level': 'exploration',
  'quick': {'checks': 220, 'shards': 14, 'timeout': 1500},
  'thorough': {'checks': 3000, 'shards': 14, 'timeout': 3400, 'race': True, 'race_frac': 0.1},
+ 'parts': [{'engine': 'stack', 'test': 'TestC07', 'quick': {'checks': 220, 'shards': 14, 'timeout': 1500},
+            'thorough': {'checks': 3000, 'shards': 14, 'timeout': 3400, 'race': True, 'race_frac': 0.1}},
+           {'engine': 'core', 'test': 'TestC07State', 'quick': {'checks': 24, 'shards': 8, 'timeout': 600},
+            'thorough': {'checks': 600, 'shards': 12, 'timeout': 2400}}],
  'rule': 'rapid draws, for 1-3 consecutive faulty generations, free-running scripts of the runtime (<=10 steps) and of 0-2 extensions (<=8 steps) '
          'over the whole Runtime/Extensions API alphabet including misuse: wrong-role calls, stale/garbage ids, duplicate parallel next, refused '
          'registrations, unknown routes and wrong methods, oversize bodies, init/exit error reports, sleeps, exits, crashes, stalls, TERM-ignoring '
@@ -21,3 +25,4 @@ PROP = {'engine': 'stack',
  'level_note': 'the exec->exit-channel window and the internal-state TOCTOU are excluded by construction (DESIGN 7)',
  'technique': 'property-based testing (rapid): generated client programs (scripts), crash/hang/foreign-body oracle over the trace'}
 PROP['rule'] += " Round-10 addition: runtime op 'cutsent' - a response, error or init-error upload broken off half way (length announced, or chunked) by a process that lives on."
+PROP['rule'] += " Part 2 (TestC07State, engine core): the internal state description that a failing invocation collects is taken by 1-4 readers while one writer pre-registers a runtime (and 0-2 extensions) and clears the registration service, 20 000-200 000 rounds; no description may panic (the emulator's goroutine that collects it has no recover). Non-trivial: descriptions seen on both sides of a Clear."
